@@ -7,6 +7,7 @@ import (
 	"encoding/hex"
 	"fmt"
 	"sort"
+	"strings"
 	"sync"
 	"testing"
 
@@ -17,6 +18,8 @@ import (
 	"github.com/btcsuite/btcutil"
 	"github.com/polynetwork/poly/common"
 	"github.com/polynetwork/poly/core/store/overlaydb"
+	"github.com/polynetwork/poly/core/types"
+	"github.com/polynetwork/poly/native"
 	"github.com/polynetwork/poly/native/service/cross_chain_manager/btc"
 	crosscommon "github.com/polynetwork/poly/native/service/cross_chain_manager/common"
 	"github.com/polynetwork/poly/native/service/governance/side_chain_manager"
@@ -55,6 +58,7 @@ func TestMain(m *testing.M) { ev.Main(m) }
 const (
 	c26KeySkip  = "sortedsearch-p2sh-skip-keeps-value-in-sum"
 	c26KeyAlias = "sortedsearch-replace-step-aliases-selection"
+	c26KeyTie   = "chooseutxos-removal-loop-equal-value-siblings-order"
 
 	btcChainID      = uint64(1)
 	contractChainID = uint64(2)
@@ -64,11 +68,13 @@ type c26Utxo struct {
 	V uint64 `json:"v"`           // value in satoshi
 	K string `json:"k"`           // script kind: p2wsh | p2sh | multisig
 	I uint32 `json:"i,omitempty"` // output index
+	T int    `json:"t,omitempty"` // txid group: outputs with the same non-zero T are siblings (same txid, different I)
 }
 
 type c26Step struct {
-	Op     string    `json:"op"` // choose | make | add
+	Op     string    `json:"op"` // choose | make | make-self | sign | add
 	Amount int64     `json:"amount,omitempty"`
+	Rel    string    `json:"rel,omitempty"` // "min-sibling": pay exactly the smallest unspent output that has an unspent sibling (fallback: Amount)
 	Add    []c26Utxo `json:"add,omitempty"`
 }
 
@@ -161,6 +167,38 @@ func genC26(t *rapid.T) c26Case {
 	for i := 0; i < nU; i++ {
 		c.Utxos = append(c.Utxos, genOne(fmt.Sprintf("u%d", i)))
 	}
+	// Sibling groups: several unspent outputs of ONE transaction (same txid, different vout), as left
+	// behind by a finished withdrawal that pays the multisig's own script (payment + change).
+	sibMode := rapid.SampledFrom([]string{"none", "none", "none", "siblings", "siblings"}).Draw(t, "sibmode")
+	nextVout := map[int]uint32{}
+	if sibMode == "siblings" && len(c.Utxos) >= 2 {
+		groups := rapid.IntRange(1, 2).Draw(t, "ngroups")
+		pos := 0
+		for g := 1; g <= groups && pos+2 <= len(c.Utxos); g++ {
+			size := rapid.IntRange(2, 4).Draw(t, fmt.Sprintf("g%dsize", g))
+			if pos+size > len(c.Utxos) {
+				size = len(c.Utxos) - pos
+			}
+			vals := rapid.SampledFrom([]string{"equal", "near", "as-drawn", "near-rev"}).Draw(t, fmt.Sprintf("g%dvals", g))
+			first := c.Utxos[pos].V
+			for k := 0; k < size; k++ {
+				u := &c.Utxos[pos+k]
+				u.T, u.I = g, uint32(k)
+				switch vals {
+				case "equal":
+					u.V = first
+				case "near": // later vout is smaller
+					if first > uint64(k) {
+						u.V = first - uint64(k)
+					}
+				case "near-rev": // later vout is larger
+					u.V = first + uint64(k)
+				}
+			}
+			nextVout[g] = uint32(size)
+			pos += size + rapid.IntRange(0, 2).Draw(t, fmt.Sprintf("g%dgap", g))
+		}
+	}
 	var total uint64
 	var maxV uint64
 	for _, u := range c.Utxos {
@@ -190,8 +228,25 @@ func genC26(t *rapid.T) c26Case {
 		case "big-and-small":
 			kinds = append(kinds, "quarter", "quarter")
 		}
+		if sibMode == "siblings" {
+			kinds = append(kinds, "sibling", "sibling", "sibling", "sibling-plus")
+		}
 		var a uint64
 		switch rapid.SampledFrom(kinds).Draw(t, label+"kind") {
+		case "sibling", "sibling-plus":
+			// exactly the value of one output that has siblings (optionally plus one other output)
+			var sib []int
+			for i, u := range c.Utxos {
+				if u.T > 0 {
+					sib = append(sib, i)
+				}
+			}
+			if len(sib) > 0 {
+				a = c.Utxos[sib[rapid.IntRange(0, len(sib)-1).Draw(t, label+"sib")]].V
+				if rapid.Bool().Draw(t, label+"plus") {
+					a += c.Utxos[rapid.IntRange(0, len(c.Utxos)-1).Draw(t, label+"other")].V
+				}
+			}
 		case "log":
 			hi := uint64(10000000000)
 			if 2*total+10 < hi {
@@ -239,14 +294,31 @@ func genC26(t *rapid.T) c26Case {
 	nSteps := rapid.IntRange(1, 5).Draw(t, "nsteps")
 	for sI := 0; sI < nSteps; sI++ {
 		label := fmt.Sprintf("s%d", sI)
-		op := rapid.SampledFrom([]string{"choose", "choose", "make", "make", "add"}).Draw(t, label+"op")
+		ops := []string{"choose", "choose", "make", "make", "add"}
+		if sibMode == "siblings" || rapid.IntRange(0, 3).Draw(t, label+"real") == 0 {
+			// the production route to siblings: pay the multisig's own address, then complete the signatures
+			ops = append(ops, "make-self", "make-self", "sign", "sign")
+		}
+		op := rapid.SampledFrom(ops).Draw(t, label+"op")
 		st := c26Step{Op: op}
+		if op == "sign" {
+			c.Steps = append(c.Steps, st)
+			continue
+		}
 		if op == "add" {
 			k := rapid.IntRange(1, 3).Draw(t, label+"nadd")
 			for j := 0; j < k; j++ {
-				st.Add = append(st.Add, genOne(fmt.Sprintf("%sa%d", label, j)))
+				u := genOne(fmt.Sprintf("%sa%d", label, j))
+				if g := rapid.IntRange(0, 2).Draw(t, fmt.Sprintf("%sa%dgrp", label, j)); g > 0 && nextVout[g] > 0 && nextVout[g] < 8 {
+					u.T, u.I = g, nextVout[g] // a further output of an existing sibling group
+					nextVout[g]++
+				}
+				st.Add = append(st.Add, u)
 			}
 		} else {
+			if rapid.IntRange(0, 3).Draw(t, label+"rel") == 0 {
+				st.Rel = "min-sibling"
+			}
 			st.Amount = genAmount(label + "amt")
 			if firstAmount == 0 {
 				firstAmount = st.Amount
@@ -461,6 +533,9 @@ type model struct {
 func (m *model) mint(r *redeemInfo, u c26Utxo) *mU {
 	m.serial++
 	h := sha256.Sum256([]byte(fmt.Sprintf("verif-c26-outpoint-%d", m.serial)))
+	if u.T > 0 {
+		h = sha256.Sum256([]byte(fmt.Sprintf("verif-c26-sibling-group-%d", u.T)))
+	}
 	return &mU{hash: h[:], idx: u.I, val: u.V, kind: u.K, script: r.pkScript(u.K)}
 }
 
@@ -615,6 +690,142 @@ func attribute(ctx *ev.Ctx, what string, c c26Case, amount int64, pre []*mU, sel
 }
 
 // ---------------------------------------------------------------------------------------------
+// completing a withdrawal through the real BTCHandler.MultiSign (the production source of sibling
+// outputs): m signers sign every input; on the last signature the contract drops the inputs from the
+// spent record and re-adds every output that pays the redeem script's P2WSH as a new unspent output
+// (txid of the signed transaction, vout = output position).
+
+type pendingTx struct {
+	unsigned *wire.MsgTx // as stored by makeBtcTx: SignatureScript carries the spent output's pkScript
+	inputs   []*mU
+}
+
+func finishWithdrawal(ctx *ev.Ctx, what string, w *world.World, c c26Case, r *redeemInfo, mdl *model, p *pendingTx) {
+	storedHash := p.unsigned.TxHash()
+	tx := p.unsigned.Copy()
+	for _, in := range tx.TxIn {
+		in.SignatureScript = nil
+	}
+	var final *wire.MsgTx
+	for j := 0; j < c.M; j++ {
+		pub, err := btcutil.NewAddressPubKey(c26Privs[j].PubKey().SerializeCompressed(), btcNet)
+		if err != nil {
+			panic(err)
+		}
+		var sigs [][]byte
+		for i, u := range p.inputs {
+			var h []byte
+			if u.kind == "p2wsh" {
+				h, err = txscript.CalcWitnessSigHash(r.script, txscript.NewTxSigHashes(tx), txscript.SigHashAll, tx, i, int64(u.val))
+			} else {
+				h, err = txscript.CalcSignatureHash(r.script, txscript.SigHashAll, tx, i)
+			}
+			if err != nil {
+				ctx.Failf("harness fixture: %s: signature hash of input %d: %v", what, i, err)
+			}
+			sg, err := c26Privs[j].Sign(h)
+			if err != nil {
+				panic(err)
+			}
+			sigs = append(sigs, append(sg.Serialize(), byte(txscript.SigHashAll)))
+		}
+		mp := &crosscommon.MultiSignParam{ChainID: btcChainID, RedeemKey: hex.EncodeToString(r.rk), TxHash: storedHash[:],
+			Address: pub.EncodeAddress(), Signs: sigs}
+		sink := common.NewZeroCopySink(nil)
+		mp.Serialization(sink)
+		w.Cache.Reset()
+		svc, err := native.NewNativeService(w.Cache, &types.Transaction{ChainID: w.ChainID}, w.Time, w.Height, w.BlockHash, w.ChainID, sink.Bytes(), false)
+		if err != nil {
+			panic(err)
+		}
+		var callErr error
+		if pn := ev.Catch(func() { callErr = btc.NewBTCHandler().MultiSign(svc) }); pn != "" {
+			ctx.Failf("%s: MultiSign (signer %d) panicked: %s", what, j, pn)
+		}
+		if callErr != nil {
+			w.Cache.Reset()
+			ctx.Failf("harness fixture: %s: MultiSign rejected signer %d of %d: %v", what, j, c.M, callErr)
+		}
+		w.Cache.Commit()
+		for _, n := range svc.GetNotify() {
+			if st, ok := n.States.([]interface{}); ok && len(st) == 6 && st[0] == "btcTxToRelay" {
+				raw, _ := st[3].(string)
+				rb, err := hex.DecodeString(raw)
+				if err != nil {
+					ctx.Failf("%s: relay notification does not carry a hex transaction", what)
+				}
+				final = wire.NewMsgTx(wire.TxVersion)
+				if err := final.BtcDecode(bytes.NewReader(rb), wire.ProtocolVersion, wire.LatestEncoding); err != nil {
+					ctx.Failf("%s: signed transaction does not decode: %v", what, err)
+				}
+			}
+		}
+	}
+	if final == nil {
+		ctx.Failf("harness fixture: %s: no signed transaction after %d signatures", what, c.M)
+	}
+	// model: inputs leave the spent record, outputs to the redeem script become unspent siblings
+	for _, u := range p.inputs {
+		if mdl.spent[u.key()]--; mdl.spent[u.key()] <= 0 {
+			delete(mdl.spent, u.key())
+			delete(mdl.spentV, u.key())
+		}
+	}
+	txid := final.TxHash()
+	back := 0
+	for i, o := range final.TxOut {
+		if bytes.Equal(o.PkScript, r.p2wsh) {
+			m := &mU{hash: append([]byte(nil), txid[:]...), idx: uint32(i), val: uint64(o.Value), kind: "p2wsh", script: r.p2wsh}
+			mdl.unspent[m.key()] = m
+			back++
+		}
+	}
+	if back >= 2 {
+		ctx.Label("sign:left-sibling-outputs")
+	}
+	svc := w.Service()
+	us, err := btc.VerifGetUtxos(svc, btcChainID, hex.EncodeToString(r.rk))
+	if err != nil {
+		ctx.Failf("%s: getUtxos: %v", what, err)
+	}
+	compareStored(ctx, what+": unspent set after the last signature", us, mdl.unspent, nil)
+	ss, err := btc.VerifGetStxos(svc, btcChainID, hex.EncodeToString(r.rk))
+	if err != nil {
+		ctx.Failf("%s: getStxos: %v", what, err)
+	}
+	compareStored(ctx, what+": spent record after the last signature", ss, mdl.spentV, mdl.spent)
+}
+
+// removalPanic handles a panic of the code under test. One class has its own root-cause key: the
+// unspent set holds two outputs with the same txid AND the same value (Utxos.Less compares value and
+// txid only, so the unspent list and the selection can order such a pair differently, and the
+// removal loop of chooseUtxos, which relies on equal orders, runs off the end of the list). Every
+// other panic is a plain violation. When the key is listed the step counts as a reverted transaction.
+func removalPanic(ctx *ev.Ctx, what, p string, pre []*mU) error {
+	tie := false
+	seen := map[string]bool{}
+	for _, u := range pre {
+		k := fmt.Sprintf("%x/%d", u.hash, u.val)
+		if seen[k] {
+			tie = true
+		}
+		seen[k] = true
+	}
+	first := p
+	if i := strings.Index(p, "\n"); i >= 0 {
+		first = p[:i]
+	}
+	if tie && strings.Contains(first, "index out of range") && strings.Contains(p, "btc.chooseUtxos") {
+		ctx.Label("finding:equal-value-sibling-panic")
+		ctx.Known(c26KeyTie, "%s panicked (%s) in the removal loop of chooseUtxos: the unspent set holds outputs of one transaction with equal values, "+
+			"which Utxos.Less leaves unordered, so the sorted selection and the sorted unspent list disagree on their order", what, first)
+		return fmt.Errorf("panic: %s", first)
+	}
+	ctx.Failf("%s panicked: %s", what, p)
+	return nil
+}
+
+// ---------------------------------------------------------------------------------------------
 // run
 
 func runC26(ctx *ev.Ctx, c c26Case) {
@@ -642,6 +853,13 @@ func runC26(ctx *ev.Ctx, c c26Case) {
 				continue
 			}
 			m := mdl.mint(r, u)
+			if mdl.unspent[m.key()] != nil || mdl.ever[m.key()] {
+				ctx.Label("skip:duplicate-outpoint")
+				continue
+			}
+			if u.T > 0 {
+				ctx.Label("utxo:sibling")
+			}
 			mdl.unspent[m.key()] = m
 			cur.Utxos = append(cur.Utxos, toUtxo(m))
 		}
@@ -654,20 +872,55 @@ func runC26(ctx *ev.Ctx, c c26Case) {
 	if err != nil {
 		panic(err)
 	}
-	recipientScript, _ := txscript.PayToAddrScript(recipient)
+	p2pkhScript, _ := txscript.PayToAddrScript(recipient)
+	selfAddr, err := btcutil.NewAddressWitnessScriptHash(r.p2wsh[2:], btcNet)
+	if err != nil {
+		panic(err)
+	}
+	var pending []*pendingTx // withdrawals built by MakeTransaction and not yet fully signed
 
 	selections, secondPass, maxInputs := 0, 0, 0
 	for si, st := range c.Steps {
-		what := fmt.Sprintf("step %d (%s %d)", si, st.Op, st.Amount)
 		switch st.Op {
 		case "add":
 			addUtxos(st.Add)
 			ctx.Label("op:add")
 			continue
-		case "choose", "make":
+		case "sign":
+			if len(pending) == 0 {
+				ctx.Label("op:sign-nothing-pending")
+				continue
+			}
+			ctx.Label("op:sign")
+			finishWithdrawal(ctx, fmt.Sprintf("step %d (sign)", si), w, c, r, mdl, pending[0])
+			pending = pending[1:]
+			continue
+		case "choose", "make", "make-self":
 		default:
 			ctx.Label("skip:malformed-case")
 			continue
+		}
+		if st.Rel == "min-sibling" {
+			// resolved against the current state: the smallest unspent output that has an unspent sibling
+			byTx := map[string]int{}
+			for _, u := range mdl.unspent {
+				byTx[string(u.hash)]++
+			}
+			var best *mU
+			for _, u := range mdl.unspent {
+				if byTx[string(u.hash)] > 1 && (best == nil || u.val < best.val || (u.val == best.val && u.key() > best.key())) {
+					best = u
+				}
+			}
+			if best != nil && best.val <= btcutil.MaxSatoshi {
+				st.Amount = int64(best.val)
+				ctx.Label("amount:min-sibling")
+			}
+		}
+		what := fmt.Sprintf("step %d (%s %d)", si, st.Op, st.Amount)
+		recipientAddr, recipientScript := recipient.EncodeAddress(), p2pkhScript
+		if st.Op == "make-self" {
+			recipientAddr, recipientScript = selfAddr.EncodeAddress(), r.p2wsh
 		}
 		if st.Amount <= 0 || st.Amount > btcutil.MaxSatoshi {
 			ctx.Label("skip:malformed-case")
@@ -692,7 +945,7 @@ func runC26(ctx *ev.Ctx, c c26Case) {
 			var res []*btc.Utxo
 			var sum, fee int64
 			if p := ev.Catch(func() { res, sum, fee, callErr = btc.VerifChooseUtxos(svc, btcChainID, st.Amount, outs, r.rk, c.M, c.N) }); p != "" {
-				ctx.Failf("%s: chooseUtxos panicked: %s", what, p)
+				callErr = removalPanic(ctx, what+": chooseUtxos", p, pre)
 			}
 			_ = fee
 			if callErr == nil {
@@ -714,14 +967,14 @@ func runC26(ctx *ev.Ctx, c c26Case) {
 			}
 		} else {
 			sink := common.NewZeroCopySink(nil)
-			sink.WriteVarBytes([]byte(recipient.EncodeAddress()))
+			sink.WriteVarBytes([]byte(recipientAddr))
 			sink.WriteUint64(uint64(st.Amount))
 			sink.WriteVarBytes(r.script)
 			th := sha256.Sum256([]byte(fmt.Sprintf("verif-c26-fromtx-%d", si)))
 			param := &crosscommon.MakeTxParam{TxHash: th[:], CrossChainID: th[:], FromContractAddress: r.contract, ToChainID: btcChainID,
 				ToContractAddress: r.rk, Method: "unlock", Args: sink.Bytes()}
 			if p := ev.Catch(func() { callErr = btc.NewBTCHandler().MakeTransaction(svc, param, contractChainID) }); p != "" {
-				ctx.Failf("%s: MakeTransaction panicked: %s", what, p)
+				callErr = removalPanic(ctx, what+": MakeTransaction", p, pre)
 			}
 			if callErr == nil {
 				var raw string
@@ -782,6 +1035,16 @@ func runC26(ctx *ev.Ctx, c c26Case) {
 		w.Cache.Commit()
 		selections++
 		ctx.Label("result:selected")
+		if mtx != nil {
+			pending = append(pending, &pendingTx{unsigned: mtx, inputs: sel})
+		}
+		for _, u := range sel {
+			for _, o := range mdl.unspent {
+				if o != u && bytes.Equal(o.hash, u.hash) {
+					ctx.Label("selected:output-with-unspent-sibling")
+				}
+			}
+		}
 
 		// --- oracle ---
 		if len(sel) == 0 {
@@ -879,7 +1142,8 @@ func TestC26(t *testing.T) {
 	ev.Drive(t, "C26",
 		"cases: an m-of-n redeem script (n<=7) registered with generated fee rate (1..500) and minimum change (2000..10^6) through the real contracts, "+
 			"a UTXO set of 0..10 outputs (one in ten up to 14; thorough 12/15 and rarely 24..32, which exhausts the first pass's 10^6-try budget) with log-uniform / clustered / one-huge values and P2WSH, P2SH and bare-multisig scripts "+
-			"(incl. 'largest outputs are P2SH'), then 1..5 steps: withdrawals through chooseUtxos or BTCHandler.MakeTransaction with payments that are subset sums, "+
+			"(incl. 'largest outputs are P2SH'; in 2 of 5 cases 1..2 groups of 2..4 sibling outputs sharing a txid, equal or near-equal values), then 1..5 steps: withdrawals through chooseUtxos or BTCHandler.MakeTransaction "+
+			"(also paying the multisig's own address and then completed through BTCHandler.MultiSign, which re-adds payment and change as siblings) with payments that are subset sums, the exact value of the smallest sibling, "+
 			"subset sums short by less than the minimum change, fee-sized, below the minimum change, a quarter of the largest output, the total, above the total; and deposits. "+
 			"non-trivial: some withdrawal selected >=3 inputs or its total lies outside the first pass's window (total != payment and total > 4*payment), i.e. it was made by the second pass; distinct by JSON encoding of the case",
 		genC26, runC26)
